@@ -364,6 +364,32 @@ def run(ctx):
             same = (not o2.raised) and np.array_equal(np.asarray(o2.value.clustering['labels']), labels) and \
                 all(np.array_equal(a, b) for a, b in zip(o2.value.fitting['beads_params'], out.fitting['beads_params']))
             ctx.check(same, 'not-reproducible-for-fixed-seed' + tag, cid, **desc)
+            # reproducibility also where membership is ambiguous: the same sample with stray events half-way between adjacent
+            # subpopulations (as any real bead file has); two runs under one seed must agree label for label (no ground truth used)
+            if container == 'float' and len(truth) <= 20000 and cid[1] % 2 == 0:
+                X_ = np.asarray(s, dtype=float)
+                med_ = [np.array([np.median(X_[truth == k, c]) for k in range(K)]) for c in range(C)]
+                strays = []
+                for k in range(K - 1):
+                    for _ in range(12):
+                        w = rng.uniform(0.3, 0.7)
+                        strays.append([float(np.sqrt(max(med_[c][k], 1e-3) ** (2 * w) * max(med_[c][k + 1], 1e-3) ** (2 * (1 - w)))) for c in range(C)])
+                ev = X_.tolist() + strays
+                order_ = rng.permutation(len(ev))
+                spec_a = dict(version='FCS3.0', datatype='F', widths=[32] * C, events=[ev[i] for i in order_], ranges=[262144] * C,
+                              names=names, pne=['0,0'] * C)
+                sa = zoo.write_and_load(F, spec_a, path)
+                with np.errstate(all='ignore'):
+                    r1 = run_once(F, sa, bd, mv_arg, chans_arg, cl_ch, stat, seed)
+                    r2 = run_once(F, sa, bd, mv_arg, chans_arg, cl_ch, stat, seed)
+                ctx.counters['chk:metamorphic'] += 1
+                if r1.raised or r2.raised:
+                    ctx.check(r1.raised and r2.raised, 'not-reproducible-for-fixed-seed', cid, with_stray_events=True,
+                              why='one of two identical runs raised', **desc)
+                else:
+                    same2 = np.array_equal(np.asarray(r1.value.clustering['labels']), np.asarray(r2.value.clustering['labels'])) and \
+                        all(np.array_equal(a, b, equal_nan=True) for a, b in zip(r1.value.fitting['beads_params'], r2.value.fitting['beads_params']))
+                    ctx.check(same2, 'not-reproducible-for-fixed-seed', cid, with_stray_events=True, **desc)
             # the short return form (full_output=False), with progress messages on (verbose=True): the same transformation
             import contextlib
             import io
